@@ -12,6 +12,8 @@ pub struct Cfg {
     pub budget: Option<u64>,
     /// native | miri | asan: lets monitors size themselves.
     pub layer: String,
+    /// monitor-specific `--key value` options
+    pub opts: std::collections::BTreeMap<String, String>,
 }
 
 impl Cfg {
@@ -25,6 +27,7 @@ impl Cfg {
             replay: None,
             budget: None,
             layer: "native".into(),
+            opts: Default::default(),
         };
         let mut i = 0;
         while i < args.len() {
@@ -47,6 +50,9 @@ impl Cfg {
                 }
                 "--budget" => c.budget = Some(v.parse().expect("budget")),
                 "--layer" => c.layer = v,
+                _ if a.starts_with("--") => {
+                    c.opts.insert(a[2..].to_string(), v);
+                }
                 _ => panic!("unknown option {a}"),
             }
             i += 2;
@@ -66,6 +72,10 @@ impl Cfg {
             self.seed,
             stream.wrapping_mul(1_000_003) ^ (self.shard as u64).wrapping_mul(0x9E37),
         )
+    }
+
+    pub fn opt(&self, k: &str) -> Option<&str> {
+        self.opts.get(k).map(|s| s.as_str())
     }
 
     /// Does index `i` of an enumerated space belong to this shard?
